@@ -39,6 +39,38 @@ var fset *token.FileSet
 var base string
 var inserted, locks, sends int
 
+// loopsOnly: insert nothing but a simhook.Yield("auto.loop:<file>:<line>") at the head of every for-loop
+// body (files given as "-loops path"). For big, hot files where statement-level yields would cost too much
+// but a Go-level loop that never reaches another hook must still be visible to the simulator.
+var loopsOnly bool
+
+func loopYield(pos token.Pos) ast.Stmt {
+	line := fset.Position(pos).Line
+	return &ast.ExprStmt{X: &ast.CallExpr{
+		Fun:  &ast.SelectorExpr{X: ast.NewIdent("simhook"), Sel: ast.NewIdent("Yield")},
+		Args: []ast.Expr{&ast.BasicLit{Kind: token.STRING, Value: strconv.Quote("auto.loop:" + base + ":" + strconv.Itoa(line))}, ast.NewIdent("nil")},
+	}}
+}
+
+// instrumentLoops puts a yield at the head of every for/range body of a function, except loops whose body
+// already starts with a simhook call (the evaluation loop has its Step hook there).
+func instrumentLoops(body *ast.BlockStmt) {
+	ast.Inspect(body, func(n ast.Node) bool {
+		var b *ast.BlockStmt
+		switch x := n.(type) {
+		case *ast.ForStmt:
+			b = x.Body
+		case *ast.RangeStmt:
+			b = x.Body
+		}
+		if b != nil && !(len(b.List) > 0 && callsSimhook(b.List[0], "")) {
+			b.List = append([]ast.Stmt{loopYield(b.Pos())}, b.List...)
+			inserted++
+		}
+		return true
+	})
+}
+
 func callsSimhook(n ast.Node, name string) bool {
 	found := false
 	ast.Inspect(n, func(x ast.Node) bool {
@@ -278,7 +310,15 @@ func rewriteExprFuncs(e ast.Expr) {
 }
 
 func main() {
-	for _, path := range os.Args[1:] {
+	args := os.Args[1:]
+	for ai := 0; ai < len(args); ai++ {
+		path := args[ai]
+		loopsOnly = false
+		if path == "-loops" && ai+1 < len(args) {
+			loopsOnly = true
+			ai++
+			path = args[ai]
+		}
 		fset = token.NewFileSet()
 		base = filepath.Base(path)
 		inserted, locks, sends = 0, 0, 0
@@ -294,6 +334,10 @@ func main() {
 			}
 			// readiness probes and print helpers stay as they are
 			if strings.HasPrefix(fd.Name.Name, "simTry") || fd.Name.Name == "init" {
+				continue
+			}
+			if loopsOnly {
+				instrumentLoops(fd.Body)
 				continue
 			}
 			fd.Body.List = rewriteList(fd.Body.List, 0, true)
